@@ -1316,7 +1316,7 @@ func importLayers(c *Checker, ids ...string) {
 			n++
 		}
 	}
-	if n < 50*len(ids)/2 {
+	if n < 25*len(ids) {
 		c.fail("LAYER", "imported obligations", 0, fmt.Sprintf("only %d obligations imported from %v", n, ids))
 	}
 }
